@@ -115,18 +115,21 @@ Case(r) ==
                 shape |-> OkShape(r), vb |-> PoolBalance(r),
                 pcztRefused |-> PcztRefused(r), signOk |-> SigningComplete(r)]]
 
+\* the table of the coin validator, printed once
+ASSUME Emit => PrintT(<< "VTABLE", ToJson([c \in CoinVariants |-> [i \in CoinVariants |-> SpendInfoAccepted(c, i)]]) >>)
+
 Init == q \in Domain /\ done = FALSE
 Eval == /\ ~done /\ done' = TRUE /\ UNCHANGED q
         /\ Emit => PrintT(<< "CASE", ToJson(Case(q)) >>)
 Next == Eval
 Spec == Init /\ [][Next]_vars
 
-ThOkPaysFee == OkPaysFee(q)
-ThPaddingCovers == PaddingCovers(q)
-ThTrichotomy == Trichotomy(q)
-ThNoInputs == NoInputs(q)
-ThSupportIsStructural == SupportIsStructural(q)
+ThOkPaysFee == done => OkPaysFee(q)
+ThPaddingCovers == done => PaddingCovers(q)
+ThTrichotomy == done => Trichotomy(q)
+ThNoInputs == done => NoInputs(q)
+ThSupportIsStructural == done => SupportIsStructural(q)
 \* amounts stay inside TLC's integers and inside what the lattice intends
-ThAmountsSane == /\ SumIn(q) < 100000000 /\ SumOut(q) < 100000000
-                 /\ \A k \in 1..InCount(q) : InVal(q, k) > 0
+ThAmountsSane == done => /\ SumIn(q) < 100000000 /\ SumOut(q) < 100000000
+                         /\ \A k \in 1..InCount(q) : InVal(q, k) > 0
 ==========================================================================================
